@@ -52,6 +52,10 @@ type HSpec struct {
 	Shares    []ShareSpec `json:"shares,omitempty"` // work shares / uncles in the body (before the KawPow fork)
 	// location of the header (and of its coinbase / work shares): nil = [0,0]; LocEmpty wins
 	Loc []int `json:"loc,omitempty"`
+	// the share-difficulty fields of the work-object header (nil: absent before the fork / the type's defaults after it) and
+	// shares with AuxPow in the body (after the KawPow fork; see fork.go)
+	Sh  *ShSpec    `json:"sh,omitempty"`
+	Aux []AuxShare `json:"aux,omitempty"`
 
 	wsHint string // generator only: WorkShareLogEntropy of the block as observed when the pair was fabricated
 }
@@ -143,7 +147,9 @@ func build(s HSpec) *types.WorkObject {
 		wh.SetParentHash(common.HexToHash(s.Parent))
 	}
 	// before the KawPow fork the share fields must be absent
-	if s.PTNum < params.KawPowForkBlock {
+	if s.Sh != nil {
+		setShares(wh, s.Sh)
+	} else if s.PTNum < params.KawPowForkBlock {
 		wh.SetShaDiffAndCount(types.NewPowShareDiffAndCount(nil, nil, nil))
 		wh.SetScryptDiffAndCount(types.NewPowShareDiffAndCount(nil, nil, nil))
 		wh.SetShaShareTarget(nil)
@@ -172,7 +178,11 @@ func build(s HSpec) *types.WorkObject {
 	if s.Extra > 0 {
 		h.SetExtra(make([]byte, s.Extra))
 	}
-	if len(s.Shares) > 0 {
+	if len(s.Aux) > 0 {
+		us := auxShareHeaders(s)
+		wo.Body().SetUncles(us)
+		h.SetUncleHash(types.CalcUncleHash(us))
+	} else if len(s.Shares) > 0 {
 		us := shareHeaders(s)
 		wo.Body().SetUncles(us)
 		h.SetUncleHash(types.CalcUncleHash(us))
@@ -385,7 +395,35 @@ func defaultChain(ctx int) *chain {
 // spread over the slices by the case id (replayable) so that a dependence on it shows up as a mismatch with the model
 func chainFor(ctx int, id uint64) *chain {
 	ch := newChainAt(ctx, nodeLocs[id%uint64(len(nodeLocs))], big.NewInt(5), big.NewInt(1000), 50000000)
+	ch.hc.SetCurrentExpansionNumber(nodeExpansion(id))
 	return ch
+}
+
+// nodeExpansion: the node's OWN "current expansion number" (HeaderChain.SetCurrentExpansionNumber: given at start-up,
+// bumped when the tree expands).  It is node-local mutable state; no function of this property may depend on it - the
+// thresholds of a block are sized by the expansion number recorded IN the block.  Spread over the cases by their id.
+func nodeExpansion(id uint64) uint8 { return []uint8{0, 1, 2, 3, 7, 255, 0, 1, 4}[id%9] }
+
+// sideChain makes the stored blocks of the scenario a NON-canonical branch: the canonical number index
+// (rawdb.WriteCanonicalHash, what GetHeaderByNumber / GetCanonicalHash read) names, for every height around the given
+// ones, a decoy block with another timestamp / difficulty that is stored like an appended block.  Ancestors are found by
+// the parent hash a header records; whatever resolves a block through the number index sees the decoy.
+func (ch *chain) sideChain(time uint64, diff string, heights ...uint64) {
+	seen := map[uint64]bool{}
+	for _, h0 := range heights {
+		for d := uint64(0); d < 4; d++ {
+			h := h0 + 1 - d // h0+1, h0, h0-1, h0-2 (wraps like the uint64 arithmetic of a lookup would)
+			if seen[h] {
+				continue
+			}
+			seen[h] = true
+			s := defaultH()
+			s.Num, s.Nonce, s.Diff = h, 0xdec0+h%7, diff
+			s.Time = time - 7 - 3*(h%5) // never the timestamp of the real ancestor's slot
+			wo := ch.add(s, true)
+			rawdb.WriteCanonicalHash(ch.db, wo.Hash(), h)
+		}
+	}
 }
 
 func (c *ctxT) runOrder(cs Case) string {
@@ -539,6 +577,16 @@ func (c *ctxT) runDiff(cs Case) string {
 	ps.Num, ps.Time, ps.Diff, ps.Parent = 8, pt, pd.String(), gp.Hash().Hex()
 	parent := ch.add(ps, true)
 	r := guard(func() *big.Int { return ch.hc.CalcDifficulty(parent.WorkObjectHeader(), parent.ExpansionNumber()) })
+	// monitor: the difficulty is derived from the parent and the block its parent hash names - not from whatever block
+	// the canonical number index holds at that height (the parent may sit on a side chain), not from the node's own
+	// expansion number, not from a memo
+	ch.sideChain(gpt, pd.String(), 8)
+	ch.hc.SetCurrentExpansionNumber(nodeExpansion(cs.ID + 1))
+	ch.hc.VerifC09PurgeCaches()
+	r2 := guard(func() *big.Int { return ch.hc.CalcDifficulty(parent.WorkObjectHeader(), parent.ExpansionNumber()) })
+	if (r == nil) != (r2 == nil) || (r != nil && r.Cmp(r2) != 0) {
+		c.rep.Fail("CalcDifficulty:depends-on-node-state", fmt.Sprintf("CalcDifficulty(parent) = %v, and %v once the canonical number index names other blocks at the heights around the parent (the parent on a side chain) and the node's expansion number changed", r, r2), cs)
+	}
 	gpCoq := "GpNone"
 	switch gpKind {
 	case 1:
@@ -658,7 +706,10 @@ func (c *ctxT) runCache(cs Case) string {
 	first := map[int]coRes{}
 	var ops, obs []string
 	hits := 0
-	for _, o := range cs.Ops {
+	for k, o := range cs.Ops {
+		if (cs.ID+uint64(k))%4 == 0 { // a tree expansion in the middle of the history (node state; not part of the model)
+			ch.hc.SetCurrentExpansionNumber(nodeExpansion(cs.ID + uint64(k) + 1))
+		}
 		switch o.K {
 		case "call":
 			before := ch.hc.VerifC09CalcOrderCacheLen()
